@@ -493,12 +493,16 @@ func (e *eng) check() *vstat.Violation {
 	return nil
 }
 
-// Run executes one case in a bubble.
-func Run(t *testing.T, c Case) (info Info, v *vstat.Violation, trace []string) {
+// Run executes one case in a bubble. found (may be nil) is called with the verdict before the bubble is torn
+// down, so that a violation is on record even if the broken code cannot be brought to quiescence any more.
+func Run(t *testing.T, c Case, found func(v *vstat.Violation, trace []string)) (info Info, v *vstat.Violation, trace []string) {
 	var teardownErr string
 	synctest.Test(t, func(*testing.T) {
 		e := &eng{c: c, info: &info}
 		v = vstat.Guard("distlock:panic", func() *vstat.Violation { return e.run() })
+		if v != nil && found != nil {
+			found(v, e.trace)
+		}
 		teardownErr = e.teardown()
 		trace = e.trace
 	})
@@ -692,6 +696,18 @@ func (e *eng) teardown() string {
 		}
 	}
 	synctest.Wait()
+	for i := 0; i < len(e.ws)+2 && busy() > 0; i++ {
+		// last resort: let fake time pass just beyond one lease, so that whoever waits on a record's expiry gives
+		// up and moves on. The renewal timers armed meanwhile (lease/2 later) are dropped before the next round:
+		// the timeout package must never reach a firing time inside a bubble (DESIGN.md §2.2).
+		drainTimers()
+		time.Sleep(10*time.Second + time.Millisecond)
+		synctest.Wait()
+		for n := 0; n < e.c.Names; n++ {
+			e.inner.Delete(context.Background(), e.key(n))
+		}
+		synctest.Wait()
+	}
 	left := busy()
 	if left == 0 {
 		for _, w := range e.ws {
